@@ -103,11 +103,16 @@ def run(ctx):
             law("FIBER(L,b2)=DM(b2*L)", FIBER(sig, L, beta_2=D1 / L).signal, DM(sig, D1).signal)
             L2 = rnd.uniform(0.1, 80)
             al, b2, b3 = rnd.choice([0, 0.2, 0.5]), rnd.uniform(-25, 25) * rnd.choice([0, 1, 1]), rnd.uniform(-0.2, 0.2) * rnd.choice([0, 1])
+            if it % 10 == 9:
+                al = [2.0, 3.0, 1.5][(it // 10) % 3]                # a very lossy span: 100 .. 480 dB in total
             two = FIBER(FIBER(sig, L, al, b2, b3), L2, al, b2, b3)
             one = FIBER(sig, L + L2, al, b2, b3)
             law("two-spans=one-span", two.signal, one.signal, dB=al * (L + L2))
             out, H = DM(sig, D2, True)
-            law("retH-is-the-applied-filter", out.signal, np.fft.ifft(np.fft.fft(sig.signal, axis=-1) * np.fft.ifftshift(H), axis=-1))
+            if np.asarray(H).shape != (n,):
+                law("retH-is-the-applied-filter", np.zeros(1), np.ones(2))            # a response that is not on the record's own grid
+            else:
+                law("retH-is-the-applied-filter", out.signal, np.fft.ifft(np.fft.fft(sig.signal, axis=-1) * np.fft.ifftshift(H), axis=-1))
             if npol == 2:
                 one_pol = optical_signal(x[0])
                 law("1pol=row-of-2pol", FIBER(one_pol, L, al, b2, b3).signal, one.signal[0] if False else FIBER(optical_signal(np.array([x[0], 0 * x[0]])), L, al, b2, b3).signal[0], dB=al * L)
